@@ -8,40 +8,49 @@ namespace LndModel.C05
 open LndModel.C04.Script
 
 /-- spending with `sequence = csvDelay` always satisfies `csvDelay OP_CSV`. -/
-theorem csvOk_self (d l : Nat) (t : Bool) :
-    csvOk { version := 2, sequence := d, lockTime := l, tapscript := t } d = true := by
+theorem csvOk_self (d l : Nat) (t ag : Bool) (bh bt ia : Nat) :
+    csvOk { version := 2, sequence := d, lockTime := l, tapscript := t, aggregated := ag,
+            blockHeight := bh, blockTime := bt, inputAge := ia } d = true := by
   unfold csvOk
   by_cases h : d / seqDisable % 2 = 1
   · simp [h]
   · have h0 : d / seqDisable % 2 = 0 := by omega
     simp [h0]
 
-theorem csvOk_one (l : Nat) (t : Bool) :
-    csvOk { version := 2, sequence := 1, lockTime := l, tapscript := t } 1 = true :=
-  csvOk_self 1 l t
+theorem csvOk_one (l : Nat) (t ag : Bool) (bh bt ia : Nat) :
+    csvOk { version := 2, sequence := 1, lockTime := l, tapscript := t, aggregated := ag,
+            blockHeight := bh, blockTime := bt, inputAge := ia } 1 = true :=
+  csvOk_self 1 l t ag bh bt ia
 
 /-- spending with `locktime = expiry` and a non-final sequence satisfies `expiry OP_CLTV`. -/
-theorem cltvOk_self (e s : Nat) (t : Bool) (hs : s ≠ seqFinal) :
-    cltvOk { version := 2, sequence := s, lockTime := e, tapscript := t } e = true := by
+theorem cltvOk_self (e s : Nat) (t ag : Bool) (bh bt ia : Nat) (hs : s ≠ seqFinal) :
+    cltvOk { version := 2, sequence := s, lockTime := e, tapscript := t, aggregated := ag,
+             blockHeight := bh, blockTime := bt, inputAge := ia } e = true := by
   simp [cltvOk, hs]
 
-theorem cltvOk_self_seq0 (e : Nat) (t : Bool) :
-    cltvOk { version := 2, sequence := 0, lockTime := e, tapscript := t } e = true :=
-  cltvOk_self e 0 t (by decide)
+theorem cltvOk_self_seq0 (e : Nat) (t ag : Bool) (bh bt ia : Nat) :
+    cltvOk { version := 2, sequence := 0, lockTime := e, tapscript := t, aggregated := ag,
+             blockHeight := bh, blockTime := bt, inputAge := ia } e = true :=
+  cltvOk_self e 0 t ag bh bt ia (by decide)
 
-theorem cltvOk_self_seq1 (e : Nat) (t : Bool) :
-    cltvOk { version := 2, sequence := 1, lockTime := e, tapscript := t } e = true :=
-  cltvOk_self e 1 t (by decide)
+theorem cltvOk_self_seq1 (e : Nat) (t ag : Bool) (bh bt ia : Nat) :
+    cltvOk { version := 2, sequence := 1, lockTime := e, tapscript := t, aggregated := ag,
+             blockHeight := bh, blockTime := bt, inputAge := ia } e = true :=
+  cltvOk_self e 1 t ag bh bt ia (by decide)
 
 /-- a locktime below the expiry never satisfies it. -/
-theorem cltvOk_early (e l s v : Nat) (t : Bool) (h : l < e) :
-    cltvOk { version := v, sequence := s, lockTime := l, tapscript := t } e = false := by
+theorem cltvOk_early (e l s v : Nat) (t : Bool) (h : l < e) (ag : Bool := false)
+    (bh bt ia : Nat := 0) :
+    cltvOk { version := v, sequence := s, lockTime := l, tapscript := t, aggregated := ag,
+             blockHeight := bh, blockTime := bt, inputAge := ia } e = false := by
   simp [cltvOk]
   intro _ h2; omega
 
 /-- a sequence below the delay (both plain block counts) never satisfies it. -/
-theorem csvOk_early (d s l v : Nat) (t : Bool) (hd : d < 65536) (hs : s < d) :
-    csvOk { version := v, sequence := s, lockTime := l, tapscript := t } d = false := by
+theorem csvOk_early (d s l v : Nat) (t : Bool) (hd : d < 65536) (hs : s < d) (ag : Bool := false)
+    (bh bt ia : Nat := 0) :
+    csvOk { version := v, sequence := s, lockTime := l, tapscript := t, aggregated := ag,
+            blockHeight := bh, blockTime := bt, inputAge := ia } d = false := by
   have h1 : d / seqDisable = 0 := by unfold seqDisable; omega
   have h4 : d % seqMask = d := by unfold seqMask; omega
   have h5 : s % seqMask = s := by unfold seqMask; omega
@@ -52,5 +61,30 @@ theorem truthy_num (x : Nat) (h : x ≠ 0) : truthy (.num x) = true := by
   cases x with
   | zero => exact absurd rfl h
   | succ k => rfl
+
+theorem self_loss (cm : Commitment) :
+    1000 * cm.selfClaim ≤ cm.ownMsat ∧ cm.ownMsat < 1000 * (cm.selfClaim + max 1 cm.dust) := by
+  unfold Commitment.selfClaim
+  split <;> rcases Nat.le_total 1 cm.dust with h | h <;> simp [h] <;> omega
+
+theorem htlc_loss (w : Weights) (ct : ChanType) (cm : Commitment) (h : Htlc) :
+    1000 * cm.htlcClaim w ct h ≤ h.amtMsat ∧
+    h.amtMsat < 1000 * (cm.htlcClaim w ct h +
+      max 1 (cm.dust + htlcFee w ct cm.feePerKw h.incoming cm.localCommit)) := by
+  unfold Commitment.htlcClaim htlcHasOutput
+  generalize htlcFee w ct cm.feePerKw h.incoming cm.localCommit = fee
+  simp only [decide_eq_true_eq]
+  split <;> rename_i hc <;>
+    rcases Nat.le_total 1 (cm.dust + fee) with h1 | h1 <;> simp [h1] <;> omega
+theorem htlcs_loss (w : Weights) (ct : ChanType) (cm : Commitment) (l : List Htlc) :
+    1000 * sumMap (cm.htlcClaim w ct) l ≤ sumMap (·.amtMsat) l ∧
+    sumMap (·.amtMsat) l ≤ 1000 * (sumMap (cm.htlcClaim w ct) l +
+      sumMap (fun h => max 1 (cm.dust + htlcFee w ct cm.feePerKw h.incoming cm.localCommit)) l) := by
+  induction l with
+  | nil => simp [sumMap]
+  | cons h t ih =>
+    have := htlc_loss w ct cm h
+    simp only [sumMap]
+    omega
 
 end LndModel.C05
